@@ -79,9 +79,102 @@ func c10SubsetSweep(c *fw.Ctx, rng *fw.RNG) {
 	}
 }
 
+// c10RecursionSweep: recursive selectors whose DEPTH LIMIT IS REACHED inside nested unions. The sequences
+// come from a small grammar — a top-level union of up to three members, each an exploring clause (all /
+// field x / index 0 / range 0:2) over an "edge part" drawn from {@, |[@], |[@,@], |[.,@], a{@}, |[a{@},f{x:@}],
+// |[|[@]], a{|[@,@]}} — and are walked with every depth limit 0..4 over two deep trees (nested maps under the key
+// x and nested lists) whose depth exceeds every limit, so the limit is always reached on a map or list node.
+// Random selectors over random shallow graphs hardly ever end a recursion exactly there (round-3 seed C10-8:
+// a nil selector left inside a union when the limit is reached).
+var c10RecTrees []datamodel.Node
+
+func c10RecursionSweep(c *fw.Ctx, rng *fw.RNG) {
+	if c10RecTrees == nil {
+		vm, vl := model.Map(model.E("x", model.Int(1)), model.E("y", model.String("leaf"))), model.List(model.Int(1), model.String("leaf"))
+		for d := 0; d < 7; d++ {
+			vm = model.Map(model.E("x", vm), model.E("y", model.List(vm, model.Int(int64(d)))), model.E("z", model.Int(int64(d))))
+			vl = model.List(vl, model.Map(model.E("x", vl)), model.Int(int64(d)))
+		}
+		for _, v := range []model.Val{vm, vl} {
+			n, _ := build.Plain(basicnode.Prototype.Any, v)
+			c10RecTrees = append(c10RecTrees, n)
+		}
+	}
+	E := func() *selgen.Sel { return &selgen.Sel{Kind: "edge"} }
+	M := func() *selgen.Sel { return &selgen.Sel{Kind: "match"} }
+	U := func(ms ...*selgen.Sel) *selgen.Sel { return &selgen.Sel{Kind: "union", Members: ms} }
+	A := func(n *selgen.Sel) *selgen.Sel { return &selgen.Sel{Kind: "all", Next: n} }
+	F := func(n *selgen.Sel) *selgen.Sel {
+		return &selgen.Sel{Kind: "fields", Fields: []selgen.Field{{Key: "x", Sel: n}}}
+	}
+	edgeParts := []func() *selgen.Sel{
+		E, func() *selgen.Sel { return U(E()) }, func() *selgen.Sel { return U(E(), E()) }, func() *selgen.Sel { return U(M(), E()) },
+		func() *selgen.Sel { return A(E()) }, func() *selgen.Sel { return U(A(E()), F(E())) }, func() *selgen.Sel { return U(U(E())) },
+		func() *selgen.Sel { return A(U(E(), E())) }, M,
+	}
+	explorers := []func(n *selgen.Sel) *selgen.Sel{
+		A, F,
+		func(n *selgen.Sel) *selgen.Sel { return &selgen.Sel{Kind: "index", Index: 0, Next: n} },
+		func(n *selgen.Sel) *selgen.Sel { return &selgen.Sel{Kind: "range", From: 0, To: 2, Next: n} },
+		func(n *selgen.Sel) *selgen.Sel { return n }, // the edge part itself as a member (edges directly in the union)
+	}
+	for k := 0; k < 10; k++ {
+		nm := 1 + rng.Intn(3)
+		var ms []*selgen.Sel
+		edges := 0
+		for j := 0; j < nm; j++ {
+			part := edgeParts[rng.Intn(len(edgeParts))]()
+			m := explorers[rng.Intn(len(explorers))](part)
+			edges += strings.Count(m.String(), "@")
+			ms = append(ms, m)
+		}
+		if edges == 0 || edges > 4 {
+			continue
+		}
+		var seq *selgen.Sel
+		if len(ms) == 1 && rng.Bool() {
+			seq = ms[0]
+		} else {
+			seq = U(ms...)
+		}
+		for lim := int64(0); lim <= 4; lim++ {
+			s := &selgen.Sel{Kind: "rec", Limit: lim, Seq: seq}
+			if rng.Chance(1, 4) {
+				s = U(M(), A(s)) // the recursion itself one level down, next to a matcher
+			}
+			spec := s.Spec()
+			c.SetCase(func() any { return map[string]any{"family": "recursion-limit sweep", "selector": s.String()} })
+			var sel selector.Selector
+			var err error
+			c.Count("selector_compiles", 1)
+			if c.Guard("C10:CompileSelector", func() { sel, err = selector.CompileSelector(fnode.New(spec)) }) || err != nil || sel == nil {
+				continue
+			}
+			c.Count("selectors_compiled_ok", 1)
+			for _, root := range c10RecTrees {
+				c.Count("recursion_sweep_walks", 3)
+				budget := func() *traversal.Budget { return &traversal.Budget{NodeBudget: 30000, LinkBudget: 10} }
+				c.Guard("C10:WalkAdv", func() {
+					traversal.Progress{Budget: budget()}.WalkAdv(root, sel, func(traversal.Progress, datamodel.Node, traversal.VisitReason) error { return nil })
+				})
+				c.Guard("C10:WalkMatching", func() {
+					traversal.Progress{Budget: budget()}.WalkMatching(root, sel, func(traversal.Progress, datamodel.Node) error { return nil })
+				})
+				c.Guard("C10:WalkTransforming", func() {
+					traversal.Progress{Budget: budget()}.WalkTransforming(root, sel, func(_ traversal.Progress, n datamodel.Node) (datamodel.Node, error) { return n, nil })
+				})
+			}
+		}
+	}
+}
+
 func c10Selector(c *fw.Ctx, rng *fw.RNG) {
-	if rng.Chance(1, 12) {
+	switch rng.Intn(12) {
+	case 0:
 		c10SubsetSweep(c, rng)
+		return
+	case 1:
+		c10RecursionSweep(c, rng)
 		return
 	}
 	g := graphgen.Gen(rng, graphgen.Opts{MaxBlocks: 4, MaxDepth: 3, MaxWidth: 4, OddKeys: true, RawBlocks: true, Missing: 1})
@@ -159,7 +252,6 @@ func c10Selector(c *fw.Ctx, rng *fw.RNG) {
 		}
 	}
 }
-
 
 // c10WalkAll walks rootNode with sel through the three walk functions under the panic monitor.
 func c10WalkAll(c *fw.Ctx, sel selector.Selector, rootNode datamodel.Node, cfg *traversal.Config) {
